@@ -58,6 +58,7 @@ void do_plan(int tier)
     plan.obs_ops[1] = {C19_NEW_OBSERVER, 0, 0};
   }
   plan.t0_stamp_ops = (int)sim_plan(2);
+  plan.fast_forward = sim_plan(6) == 0;
   plan.nthreads = (int)sim_plan(tier ? C19_MAXTHREADS + 1 : 4);
   for (int t = 0; t < plan.nthreads; t++) {
     plan.nops[t] = 1 + (int)sim_plan(plan.nthreads > 3 ? 8 : C19_MAXOPS);
